@@ -55,7 +55,10 @@ class Tagger:
                 len(e.args) == 1:
             e = e.args[0]
         if isinstance(e, ast.IfExp):
-            # `x if key in d else ''`  - optional cell of the same quantity
+            # `x if key in d else ''` / `'' if key not in d else x`: the
+            # optional cell of the same quantity
+            if self.const(e.body) == "" and self.const(e.orelse) != "":
+                return self.tag_expr(e.orelse)
             return self.tag_expr(e.body)
         if isinstance(e, ast.Call) and isinstance(
                 e.func, ast.Name) and e.func.id == "csv_scope" and len(
@@ -161,7 +164,16 @@ class Tagger:
                 # transparent; data dependent guards are not
                 inner = self.stream(s.body)
                 if s.orelse:
-                    inner = [("alt", inner, self.stream(s.orelse))]
+                    alt = self.stream(s.orelse)
+                    empty = [("expr", "''")]
+                    # `if present: yield value else: yield ""` is the
+                    # optional cell of that quantity (as `v if c else ""`)
+                    if alt == empty and len(inner) == 1:
+                        pass
+                    elif inner == empty and len(alt) == 1:
+                        inner = alt
+                    else:
+                        inner = [("alt", inner, alt)]
                 out += inner
             elif isinstance(s, ast.For):
                 src = s.iter
@@ -191,11 +203,15 @@ class Tagger:
                 return "lower"
             if c == "upperBound":
                 return "upper"
-        if isinstance(v, ast.Subscript) and isinstance(v.value, ast.Name):
-            f = self.alias.get(v.value.id, v.value.id)
-            if "lb" in f:
+        if isinstance(v, ast.Subscript):
+            f = None
+            if isinstance(v.value, ast.Name):
+                f = self.alias.get(v.value.id, v.value.id)
+            else:
+                f = _self_field(v.value)
+            if f is not None and "lb" in f:
                 return "lower"
-            if "ub" in f:
+            if f is not None and "ub" in f:
                 return "upper"
         return None
 
@@ -322,7 +338,12 @@ def _csv_reader(ctx: Ctx, mod: Module, rec_name: str) -> None:
     ctx.need(call is not None, f"parse_row builds {rec_name}")
     problems = []
     n_checked = 0
-    for p, a in zip(params, call.args):
+    pairs = list(zip(params, call.args))
+    for kw in call.keywords:
+        # a keyword argument binds the parameter of that name
+        if kw.arg in params:
+            pairs.append((kw.arg, kw.value))
+    for p, a in pairs:
         fields = [_self_field(x) for x in ast.walk(a)]
         fields = [f for f in fields if f]
         for f in fields:
@@ -342,7 +363,12 @@ def _csv_reader(ctx: Ctx, mod: Module, rec_name: str) -> None:
                     problems.append(
                         f"parameter `{p}` is filled from field `{f}`")
     for kw in call.keywords:
-        problems.append(f"keyword argument {kw.arg} not analysed")
+        if kw.arg not in params:
+            problems.append(f"keyword argument {kw.arg} is not a parameter "
+                            f"of {rec_name}")
+    seen_p = [p_ for p_, _a in pairs]
+    if len(seen_p) != len(set(seen_p)):
+        problems.append("a parameter is bound twice")
     ok = not problems and n_checked >= len(params) - 0
     ctx.ob("D19.1", parse, call, ok,
            f"{mod.name.split('.')[-1]}.CsvReader: each of the "
@@ -593,11 +619,23 @@ def _mapping_keys(ctx: Ctx, mod: Module, rec_name: str) -> None:
         tg = n.targets[0] if isinstance(n, ast.Assign) else n.target
         f = _self_field(tg)
         call = n.value
-        if f is None or not call.args or not isinstance(
-                call.args[0], ast.Lambda):
+        if f is None or not call.args:
             continue
         lam = call.args[0]
-        body = lam.body
+        if isinstance(lam, ast.Name):
+            # a local helper function instead of a lambda
+            fdefs = [d for d in ast.walk(init.node) if isinstance(
+                d, ast.FunctionDef) and d.name == lam.id]
+            rets = [r for d in fdefs for r in ast.walk(d)
+                    if isinstance(r, ast.Return) and r.value is not None]
+            if len(fdefs) != 1 or len(rets) != 1 or len(
+                    fdefs[0].body) > 2:
+                continue
+            body = rets[0].value
+        elif isinstance(lam, ast.Lambda):
+            body = lam.body
+        else:
+            continue
         while isinstance(body, ast.Call) and isinstance(
                 body.func, ast.Name) and body.func.id in (
                 "tuple", "sorted", "list") and body.args:
@@ -627,7 +665,9 @@ def _mapping_keys(ctx: Ctx, mod: Module, rec_name: str) -> None:
     ctx.need(call is not None, f"{short}.CsvReader.parse_row builds "
              f"{rec_name}")
     n_fam = 0
-    for p, a in zip(params, call.args):
+    pairs = list(zip(params, call.args)) + [
+        (kw.arg, kw.value) for kw in call.keywords if kw.arg in params]
+    for p, a in pairs:
         if not isinstance(a, ast.DictComp):
             continue
         g = a.generators[0]
@@ -675,6 +715,11 @@ def _mapping_keys(ctx: Ctx, mod: Module, rec_name: str) -> None:
                + "; ".join(problems)[:600],
                construct=f"{short} keys of {p}")
     ctx.count(f"{short}_key_families", n_fam)
+    if n_fam == 0:
+        ctx.ob("D19.4", init, init.node, False,
+               f"{short}.CsvReader: the way the key families (bin bounds, "
+               "objective bounds) are selected and passed to the record is "
+               "not recognised", construct=f"{short} key families")
 
 
 def _range_calls(fi: FuncInfo, fname: str) -> list[ast.Call]:
@@ -1285,6 +1330,38 @@ def _first_line_forms(ctx: Ctx) -> None:
         k = blk.index(first_loop)
         after = blk[k + 1] if k + 1 < len(blk) else None
     ok_nl = after is not None and "write('\\n" in ast.unparse(after)
+    if not (ok_w and ok_nl):
+        # the other idiom: write(CSV_SEPARATOR.join(str(k) for k in
+        # self.flatten())) as the very first write, then a line break
+        writes = sorted((c for c in ast.walk(gp.node) if isinstance(
+            c, ast.Call) and isinstance(c.func, ast.Attribute)
+            and c.func.attr == "write" and len(c.args) == 1),
+            key=lambda c: (c.lineno, c.col_offset))
+        if len(writes) >= 2:
+            a0 = writes[0].args[0]
+            sepv = repo.const(gp.module, ast.Name(id="CSV_SEPARATOR"))
+            comp = a0.args[0] if isinstance(a0, ast.Call) and isinstance(
+                a0.func, ast.Attribute) and a0.func.attr == "join" and len(
+                a0.args) == 1 else None
+            okj = comp is not None and isinstance(
+                sepv, str) and repo.const(
+                gp.module, a0.func.value) == sepv and isinstance(
+                comp, (ast.ListComp, ast.GeneratorExp)) and len(
+                comp.generators) == 1 and not comp.generators[0].ifs and \
+                ast.unparse(comp.generators[0].iter) == "self.flatten()" \
+                and ast.unparse(comp.elt) == \
+                f"str({ast.unparse(comp.generators[0].target)})"
+            nl = repo.const(gp.module, writes[1].args[0])
+            # both writes are unconditional statements of the same block
+            blk = next((b for b in _blocks(gp.node) if any(
+                isinstance(st, ast.Expr) and st.value is writes[0]
+                for st in b)), None)
+            seq_ok = blk is not None and any(
+                isinstance(st, ast.Expr) and st.value is writes[1]
+                for st in blk)
+            if okj and isinstance(nl, str) and nl.startswith("\n") and \
+                    seq_ok:
+                ok_w = ok_nl = True
     ctx.ob("D19.3", gp, first_loop or gp.node, bool(ok_w and ok_nl),
            "GamePlan.__str__ writes the flattened matrix joined by "
            "CSV_SEPARATOR as the first line, then a line break",
@@ -1309,8 +1386,40 @@ def _first_line_forms(ctx: Ctx) -> None:
                 "extend", "append"):
             first_ext = s
             break
-    ok_w = first_ext is not None and "super().to_str(x)" in ast.unparse(
-        first_ext) and "'\\n'.join(text)" in ast.unparse(ot.node)
+    # the list that is joined by line breaks at the end starts with the
+    # text of the base permutation: created from it, or created empty and
+    # extended by it first
+    joined = None
+    for r in ast.walk(ot.node):
+        if isinstance(r, ast.Return) and isinstance(
+                r.value, ast.Call) and isinstance(
+                r.value.func, ast.Attribute) and r.value.func.attr == \
+                "join" and repo.const(ot.module, r.value.func.value) == \
+                "\n" and len(r.value.args) == 1 and isinstance(
+                r.value.args[0], ast.Name):
+            joined = r.value.args[0].id
+    base = f"super().to_str({ot.params[1]})"
+    ok_w = False
+    if joined is not None:
+        created = next((s_ for s_ in body if isinstance(
+            s_, (ast.Assign, ast.AnnAssign)) and s_.value is not None
+            and ast.unparse(s_.targets[0] if isinstance(s_, ast.Assign)
+                            else s_.target) == joined), None)
+        muts = [s_ for s_ in body if isinstance(s_, ast.Expr)
+                and isinstance(s_.value, ast.Call) and isinstance(
+                    s_.value.func, ast.Attribute)
+                and ast.unparse(s_.value.func.value) == joined]
+        if created is not None:
+            csrc = ast.unparse(created.value)
+            if csrc == "[]":
+                ok_w = bool(muts) and muts[0].value.func.attr == \
+                    "extend" and base in ast.unparse(muts[0]) and \
+                    body.index(muts[0]) > body.index(created)
+                first_ext = muts[0] if muts else first_ext
+            else:
+                ok_w = csrc in (f"{base}.split('\\n')",
+                                f"{base}.splitlines()", f"[{base}]")
+                first_ext = created
     ctx.ob("D19.3", ot, first_ext or ot.node, ok_w,
            "OrderingSpace.to_str puts the base permutation text first",
            construct="ordering first line")
